@@ -1083,3 +1083,5 @@ M('C20', 'diff-endpoint-upgrades-before-diffing', SRV, "        try:\n          
 M('C04', 'minor-version-follows-the-merge-strategy', MNB, '        "/nbformat_minor": "take-max",', '        "/nbformat_minor": merge_strategy if merge_strategy.startswith("use-") else "take-max",', 'R04.15')
 M('C17', 'check-attr-without-z', FLT, "['git', 'check-attr', '-z', 'filter', '--', path]", "['git', 'check-attr', 'filter', '--', path]", 'R17.20')
 T('C17', 'twin-check-attr-arguments-in-a-local', FLT, "        spec = check_output(['git', 'check-attr', '-z', 'filter', '--', path])", "        argv = ['git', 'check-attr', '-z', 'filter', '--', path]\n        spec = check_output(argv)")
+M('C03', 'two-sided-removal-with-insert-folded-into-the-insert-arm', MG, '        elif chunktype in ("AR/R", "R/AR"):\n            # Identical (ensured by chunking) twosided removal with insertion just before one of them\n            decisions.onesided(path, a0, a1)\n            decisions.agreement(path, p0, p1)\n        elif chunktype in ("AR/A", "A/AR", "A/A", "AR/AR"):',
+  '        elif chunktype in ("AR/A", "A/AR", "A/A", "AR/AR", "AR/R", "R/AR"):', 'R03.1')
